@@ -32,7 +32,9 @@ CORPUS = ["v12/simul/client/6/1/0/0", "v13/close/client/9/2/1/0",
           "v12/access/client/1000/0/0/0", "v12/access/server/1000/0/0/0",
           # seeded change C16d: the DTLS 1.3 state machine fails on a received post-handshake message
           # (its ACK cannot be written) and must release the read loop
-          "v13/phpeer/client/12/0/0/0", "v13/phfatal/server/13/0/0/1", "dual13/phclose/client/12/2/1/0"]
+          "v13/phpeer/client/12/0/0/0", "v13/phfatal/server/13/0/0/1", "dual13/phclose/client/12/2/1/0",
+          # 0805f5b: Close during the dual-stack version negotiation -> ErrConnClosed, not the transport's error
+          "dualc/close/client/0/1/0/0", "duals/iclose/server/0/1/0/0", "dual13/iclose/client/1/1/0/1"]
 
 SITE_CN2 = "conn.go close / processIncomingPacket (close_notify reply)"
 SIG_CN2 = {"monitor": "close_notify twice",
@@ -43,6 +45,28 @@ SIG_W13 = {"monitor": "blocked Write woken by Close with context.Canceled", "ver
 SITE_DLHS = "conn.go Read / Write (implicit Handshake)"
 SIG_DLHS = {"monitor": "expired deadline does not interrupt a Read/Write blocked in the implicit Handshake"}
 SITE_LIFE = "conn.go lifecycle (Close / read loop / HandshakeContext)"
+# known (not repaired): ConnectionState()/SelectedSRTPProtectionProfile()/RemoteAddr() polled from another goroutine
+# while HandshakeContext runs: the handshake goroutines write conn.state and its fields without conn.lock
+SITE_ACCRACE = "conn.go ConnectionState / state accessors vs the handshake goroutines (conn.state written without conn.lock)"
+SIG_ACCRACE = {"monitor": "data race: accessor during the handshake"}
+
+
+def race_blocks(out):
+    """race detector reports of a go test output: list of (involves the accessor poller, (top frame of the
+    access, top frame of the previous access), report text without addresses / goroutine ids)"""
+    res = []
+    for b in re.findall(r"WARNING: DATA RACE\n(.*?)\n==================", out, re.S):
+        secs = b.split("\n\n")
+        tops = []
+        for sec in secs[:2]:
+            fr = [m.group(1).split("/")[-1] for m in re.finditer(r"^  (\S+)\(\)$", sec, re.M)]
+            tops.append(fr[0] if fr else "?")
+        while len(tops) < 2:
+            tops.append("?")
+        inv = any("c16AccessPoll" in sec for sec in secs[:2])
+        clean = re.sub(r"0x[0-9a-f]+|goroutine \d+|Goroutine \d+|\+0x[0-9a-f]+|:\d+ ", "_", b)
+        res.append((inv, tuple(tops), clean))
+    return res
 
 
 def corpus_reached(r):
@@ -404,6 +428,12 @@ def run(chk):
     if thorough:
         legs.append(("e2e-race", "^TestVerifC16E2E$", {"VERIF_C16_REPS": 10}, True, 3000))
         legs.append(("stress-race", "^TestVerifC16Stress$", {"VERIF_C16_ITERS": 2000}, True, 3000))
+        # the state accessors polled from another goroutine during real-time handshakes (all variants)
+        legs.append(("access-race", "^TestVerifC16AccessRace$", {"VERIF_C16_ROUNDS": 5}, True, 1800))
+
+    if os.environ.get("VERIF_C16_LEGS"):   # debugging aid: run only the named legs
+        want = set(os.environ["VERIF_C16_LEGS"].split(","))
+        legs = [l for l in legs if l[0] in want]
 
     found_input = False
     reported = set()
@@ -430,6 +460,38 @@ def run(chk):
         rows = vlib.read_jsonl(outp)
         vlib.cleanup(outp)
         obs = [r for r in rows if r.get("kind") in ("c16", "stress")]
+        if name == "access-race":
+            runs = [r for r in rows if r.get("kind") == "accrace"]
+            blocks = race_blocks(o)
+            acc = [b for b in blocks if b[0]]
+            other = [b for b in blocks if not b[0]]
+            bad_hs = [r for r in runs if r.get("hs_c") != "ok" or r.get("hs_s") != "ok"]
+            if acc:
+                found_input = True
+                pairs = sorted({"%s / %s" % b[1] for b in acc})
+                chk.finding(SITE_ACCRACE, SIG_ACCRACE,
+                            "the race detector reports data races between a goroutine polling ConnectionState() / "
+                            "SelectedSRTPProtectionProfile() / RemoteAddr() and the goroutines of a running "
+                            "HandshakeContext (the accessors take conn.lock.RLock, the handshake writes conn.state "
+                            "and its fields without that lock)",
+                            {"test": test, "race": True, "reports": len(acc), "distinct_access_pairs": pairs[:60],
+                             "sample_report": acc[0][2][:3500],
+                             "rerun": "cd /repo && VERIF_C16_ROUNDS=5 go1.26 test -race -tags verif -overlay <overlay> "
+                                      "-run '^TestVerifC16AccessRace$' .",
+                             "rerun_check": "VERIF_SEED=%d bin/check C16 --tier thorough" % chk.seed})
+            if other:
+                found_input = True
+                chk.finding(SITE_LIFE, {"monitor": "data race", "leg": name},
+                            "race detector report that does not involve the polling goroutine, during " + test,
+                            {"test": test, "race": True, "reports": len(other),
+                             "pairs": sorted({"%s / %s" % b[1] for b in other})[:40], "report": other[0][2][:3500]})
+            if not runs or bad_hs or (rc != 0 and not blocks):
+                chk.broken("access-race leg: %d runs, %d handshakes failed, rc=%d without a race report"
+                           % (len(runs), len(bad_hs), rc), o)
+            chk.count(name, len(runs), [(r["variant"], r["round"]) for r in runs], samples=runs[-1:])
+            chk.leg_info(name, race=True, polls=sum(r.get("polls", 0) for r in runs), race_reports=len(blocks),
+                         accessor_reports=len(acc))
+            continue
         if "DATA RACE" in o:
             found_input = True
             i = o.index("DATA RACE")
